@@ -1,7 +1,7 @@
 """psv.props — which rules decide which property."""
 from . import core
 from .report import Check
-from .rules import cw
+from .rules import cw, ed
 
 
 def c18(tier):
@@ -20,7 +20,25 @@ def c18(tier):
     return C.finish()
 
 
-TABLE = {"C18": c18}
+def c08(tier):
+    C = Check("C08", tier,
+              explanation="Error discipline of the FITS write path, decided on the CFG of the instantiated writers: no cfitsio status is "
+              "dropped before a normal exit (ED-1), the success path passes through a checked fits_close_file with the scope guard disarmed "
+              "(ED-2), creation status is checked before the handle is used (ED-3); the C wrappers contain and map failures (CW-1/CW-2). "
+              "Decides 'no error from the FITS layer is dropped, including at close'; does not decide what a reader does with a truncated "
+              "file (behaviour of cfitsio on partial HDUs).",
+              assumptions=["cfitsio's inherited-status convention: a call made with non-zero *status does nothing and keeps it",
+                           "exceptional paths are not in the CFG (no EH edges): a throw leaves the writer with a failure, which is what the property wants"])
+    P = core.load(tier=tier)
+    n = ed.run(P, C)
+    cw.cw1(P, C, only=("writesplinefitstable", "writesplinefitstable_mem"))
+    cw.cw2(P, C, only=("writesplinefitstable", "writesplinefitstable_mem"))
+    C.extra["units"] = sorted(P.units.keys())
+    C.extra["cfitsio_call_sites"] = n
+    return C.finish()
+
+
+TABLE = {"C18": c18, "C08": c08}
 
 
 def run(prop, tier):
